@@ -38,6 +38,9 @@ enum Op {
 struct Act {
     stack: Vec<Ad>,
     op: Op,
+    /// a second operation issued through the *same* adapter instances (None: one operation per instance)
+    #[serde(default, skip_serializing_if = "Option::is_none")]
+    then: Option<Op>,
 }
 
 #[derive(Clone, Debug, PartialEq, Eq, Hash, Serialize, Deserialize)]
@@ -68,7 +71,17 @@ fn r(a: &R4) -> Rectangle {
     rect(a.0, a.1, a.2, a.3)
 }
 
-fn apply<T: DrawTarget>(t: &mut T, op: &Op)
+fn apply<T: DrawTarget>(t: &mut T, ops: &[Op])
+where
+    T::Color: FromV,
+    T::Error: core::fmt::Debug,
+{
+    for op in ops {
+        apply_one(t, op);
+    }
+}
+
+fn apply_one<T: DrawTarget>(t: &mut T, op: &Op)
 where
     T::Color: FromV,
     T::Error: core::fmt::Debug,
@@ -90,7 +103,7 @@ where
 // depth-indexed functions (an adapter stack is a type; recursion over a generic would not terminate)
 macro_rules! level_gray {
     ($name:ident, $next_a:ident, $next_b:ident) => {
-        fn $name<T: DrawTarget<Color = Gray8>>(t: &mut T, stack: &[Ad], op: &Op, boxes: &mut Vec<Rectangle>)
+        fn $name<T: DrawTarget<Color = Gray8>>(t: &mut T, stack: &[Ad], op: &[Op], boxes: &mut Vec<Rectangle>)
         where
             T::Error: core::fmt::Debug,
         {
@@ -122,7 +135,7 @@ macro_rules! level_gray {
 }
 macro_rules! level_rgb {
     ($name:ident, $next_b:ident) => {
-        fn $name<T: DrawTarget<Color = Rgb888>>(t: &mut T, stack: &[Ad], op: &Op, boxes: &mut Vec<Rectangle>)
+        fn $name<T: DrawTarget<Color = Rgb888>>(t: &mut T, stack: &[Ad], op: &[Op], boxes: &mut Vec<Rectangle>)
         where
             T::Error: core::fmt::Debug,
         {
@@ -148,14 +161,14 @@ macro_rules! level_rgb {
         }
     };
 }
-fn ga0<T: DrawTarget<Color = Gray8>>(t: &mut T, stack: &[Ad], op: &Op, _b: &mut Vec<Rectangle>)
+fn ga0<T: DrawTarget<Color = Gray8>>(t: &mut T, stack: &[Ad], op: &[Op], _b: &mut Vec<Rectangle>)
 where
     T::Error: core::fmt::Debug,
 {
     assert!(stack.is_empty(), "harness: stack deeper than 3");
     apply(t, op)
 }
-fn gb0<T: DrawTarget<Color = Rgb888>>(t: &mut T, stack: &[Ad], op: &Op, _b: &mut Vec<Rectangle>)
+fn gb0<T: DrawTarget<Color = Rgb888>>(t: &mut T, stack: &[Ad], op: &[Op], _b: &mut Vec<Rectangle>)
 where
     T::Error: core::fmt::Debug,
 {
@@ -274,7 +287,8 @@ macro_rules! run_real {
             let mut t = Rec::<Gray8, $n>::with_box(r(&init.parent_box)).logging();
             t.map = s.map.clone();
             let mut boxes = vec![];
-            ga3(&mut t, &a.stack, &a.op, &mut boxes);
+            let ops: Vec<Op> = std::iter::once(a.op.clone()).chain(a.then.clone()).collect();
+            ga3(&mut t, &a.stack, &ops, &mut boxes);
             (t.map, t.log, boxes)
         }
     };
@@ -300,7 +314,12 @@ impl Model for M {
         let mut exp = s.map.clone();
         let mut inside = 0u32;
         let mut outside = 0u32;
-        for (p, v) in writes(&a.op, &c.top) {
+        let mut all_writes = writes(&a.op, &c.top);
+        if let Some(t) = &a.then {
+            all_writes.extend(writes(t, &c.top));
+            obs.class("two-operations-through-one-adapter-instance");
+        }
+        for (p, v) in all_writes {
             let q = (p.0 + c.off.0, p.1 + c.off.1);
             if c.clip.as_ref().map_or(true, |cl| cl.contains(&q)) {
                 exp.insert(q, Gray8::new(conv_v(v, c.conv)));
@@ -468,7 +487,7 @@ fn alphabet(max_depth: usize, reduced: bool) -> Vec<Act> {
     let mut v = vec![];
     for s in stacks(max_depth, reduced) {
         for o in ops(reduced) {
-            v.push(Act { stack: s.clone(), op: o });
+            v.push(Act { stack: s.clone(), op: o, then: None });
         }
     }
     v
@@ -489,7 +508,7 @@ fn run_part(run: &mut Run) {
             let mut acts = vec![];
             for s in stacks(3, true).into_iter().filter(|s| s.len() == 3) {
                 for o in ops(false) {
-                    acts.push(Act { stack: s.clone(), op: o });
+                    acts.push(Act { stack: s.clone(), op: o, then: None });
                 }
             }
             let m = WithAlphabet { acts };
@@ -502,6 +521,17 @@ fn run_part(run: &mut Run) {
             let stats = run.explore("histories", "all action sequences of length 2 (thorough 3 over depth<=1 stacks, 2 over depth<=2) over the reduced alphabet from the 16 initial states, deduplicated on the parent's pixel map", &m, inits(), 2);
             // second engine over the same transition function: must see the same state space
             run.cross_check_stateright("histories", std::sync::Arc::new(m), inits(), 2, &stats);
+            // two operations through the same adapter instances (an adapter must not carry state from one call to the next)
+            let mut acts = vec![];
+            for s in stacks(tier.pick(1, 2), true) {
+                for o1 in ops(true) {
+                    for o2 in ops(true) {
+                        acts.push(Act { stack: s.clone(), op: o1.clone(), then: Some(o2) });
+                    }
+                }
+            }
+            let m2 = WithAlphabet { acts };
+            run.explore("two-operations-per-instance", "every pair of operations of the reduced list issued through one instance of every adapter stack of depth <= 1 (thorough 2) over the reduced alphabet, from the 16 initial states", &m2, inits(), 1);
             if tier.is_thorough() {
                 let m = WithAlphabet { acts: alphabet(1, true) };
                 run.explore("histories-3", "all action sequences of length 3 over the reduced alphabet with stacks of depth <= 1", &m, inits(), 3);
@@ -519,7 +549,7 @@ fn main() {
         assumptions: &["Rectangle::intersection/translate are used by the model as trusted primitives (C16 decides them)", "bounded to the listed adapters, operations and history depth"],
         parts: |_| vec![PartSpec::new("single", "verif"), PartSpec::new("nested3", "verif"), PartSpec::new("histories", "verif")],
         run_part,
-        required_classes: |_| vec!["clip-cuts-operation", "clip-removes-everything", "colour-converted", "nested", "no-adapter", "short-stream", "endless-stream", "cropped", "translated", "clear", "trait-default-fill", "empty-parent-box"],
+        required_classes: |_| vec!["clip-cuts-operation", "clip-removes-everything", "colour-converted", "nested", "no-adapter", "short-stream", "endless-stream", "cropped", "translated", "clear", "trait-default-fill", "empty-parent-box", "two-operations-through-one-adapter-instance"],
         crash_is_verdict: false,
     })
 }
